@@ -221,16 +221,22 @@ def execute(script):
         for bid, b in got.items():
             if bid not in pre_fault and bid not in fault_batch:
                 res.violate(PROP, 'C08/unknown-block-after-failed-flush', 'block never handed to the store')
-            elif b.serialize() != raw[bid]:
-                res.violate(PROP, 'C08/readback-mismatch-after-failed-flush', 'bytes differ for %s' % bid.hex()[:12])
-            p = b.header.summary.previous_block_hash
-            if p != b'\x00' * 32 and p not in got:
+        in_chain = {row[0] for row in store.sql('select block_hash from chain')}
+        for bid in in_chain:
+            p = chain.blocks[bid].parent if bid in chain.blocks else None
+            if p is not None and p.id not in in_chain:
                 res.violate(PROP, 'C08/orphan-after-failed-flush', 'stored block without stored parent')
         for bid in pre_fault:
-            if bid not in got:
+            if bid not in in_chain:
                 res.violate(PROP, 'C08/flushed-block-lost-after-failed-flush',
                             'a block flushed before the failing flush is gone: %s' % bid.hex()[:12])
-        flushed = pre_fault + [b for b in fault_batch if b in got]
+        flushed = pre_fault + [b for b in fault_batch if b in in_chain]
+        if not res.violations:
+            # byte fidelity of what is there, with the same narrow exception for the known shared-transaction loss
+            msg, f6_only = read_all()
+            if msg is not None:
+                res.violate(PROP, 'C08/readback-mismatch' if f6_only else 'C08/readback-mismatch-after-failed-flush', msg,
+                            {'f6_consistent': bool(f6_only)})
         handed = set(flushed) - {genesis_id}
         had_fault = False
         res.bump('relaxed_resyncs')
